@@ -1781,6 +1781,7 @@ fn cmd_check(a: &Args) -> i32 {
                 "runs_in_which_the_output_device_filled_up_enospc_in_gating_runs": sum.write_faults_injected,
                 "metadata_queries_failed_with_eio_in_gating_runs": sum.stat_faults_injected,
                 "thread_creations_failed_with_eagain_in_gating_runs": sum.spawn_faults_injected,
+                "panics_of_spawned_threads_that_the_program_survived": sum.thread_panics_survived,
                 "hard_io_faults_in_gating_runs": "four kinds, never two in one run: EIO on one seeded read (a sixth of the seeded runs), the output device filling up (ENOSPC, an eighth), EIO on one seeded path-based metadata query (stat; an eighth; 0 injected means the program asks for no metadata, as the pinned generators), EAGAIN on one seeded thread creation (a tenth; 0 injected means the program starts no threads, as the pinned generators). A run that meets one may fail loudly (the pinned generators do: expect(), println!) but may not complete with a different table. Missing files, torn or corrupt content and listing errors stay in the non-gating exploration (DESIGN §4.4)",
             },
             "hard_fault_exploration_not_gating": {
@@ -2535,6 +2536,9 @@ fn generator_process_state() -> Option<String> {
 
 fn main() {
     // shuttle installs a process-wide panic hook at its first execution; ours goes on top of it
+    // (round 16) programs catch panics and go on: the engine must not take the first panic for the
+    // end of the execution (vendor/shuttle-engine/README.verif.md)
+    sim::survivable_panics();
     sim::prime_shuttle();
     sim::install_panic_hook();
     // A generator that uses threads or synchronisation runs under the thread scheduler from its
